@@ -265,6 +265,7 @@ func runC09(r *Run) {
 			off := nextOffset()
 			e := mkEntry(off)
 			prog = append(prog, walProgOp{Kind: "append", A: off, N: len(e.Value)})
+			r.lastOp = fmt.Sprintf("%+v with log [%d..%d]", prog[len(prog)-1], m.first(), m.lastAppended())
 			if err := w.Append(e); err != nil {
 				r.Fail("append-rejected", "Append(%d) after last=%d rejected: %v", off, m.lastAppended(), err)
 				break
@@ -277,6 +278,7 @@ func runC09(r *Run) {
 				off := nextOffset()
 				e := mkEntry(off)
 				prog = append(prog, walProgOp{Kind: "append-async", A: off, N: len(e.Value)})
+				r.lastOp = fmt.Sprintf("%+v with log [%d..%d]", prog[len(prog)-1], m.first(), m.lastAppended())
 				if err := w.AppendAsync(e); err != nil {
 					r.Fail("append-rejected", "AppendAsync(%d) after last=%d rejected: %v", off, m.lastAppended(), err)
 					break
@@ -291,6 +293,7 @@ func runC09(r *Run) {
 			}
 			if g.Chance(70) && !r.Failed() {
 				prog = append(prog, walProgOp{Kind: "sync"})
+				r.lastOp = fmt.Sprintf("%+v with log [%d..%d]", prog[len(prog)-1], m.first(), m.lastAppended())
 				if err := w.Sync(context.Background()); err != nil {
 					r.Fail("sync-error", "Sync failed: %v", err)
 					break
@@ -302,6 +305,7 @@ func runC09(r *Run) {
 			off := nextOffset()
 			e := mkEntry(off)
 			prog = append(prog, walProgOp{Kind: "append-and-sync", A: off, N: len(e.Value)})
+			r.lastOp = fmt.Sprintf("%+v with log [%d..%d]", prog[len(prog)-1], m.first(), m.lastAppended())
 			var wg sync.WaitGroup
 			wg.Add(1)
 			var cbErr error
@@ -327,6 +331,7 @@ func runC09(r *Run) {
 			}
 			e := mkEntry(bad)
 			prog = append(prog, walProgOp{Kind: "append-bad", A: bad})
+			r.lastOp = fmt.Sprintf("%+v with log [%d..%d]", prog[len(prog)-1], m.first(), m.lastAppended())
 			if err := w.AppendAsync(e); err == nil {
 				r.Fail("bad-offset-accepted", "AppendAsync(%d) accepted although last appended is %d", bad, m.lastAppended())
 			} else if !errors.Is(err, wal.ErrInvalidNextOffset) {
@@ -342,15 +347,24 @@ func runC09(r *Run) {
 				m.synced = len(m.entries)
 			}
 			var x int64
-			switch g.Intn(4) {
+			switch g.Intn(5) {
 			case 0:
 				x = m.lastAppended()
 			case 1:
 				x = m.first()
+			case 2:
+				x = m.first() + int64(g.Intn(len(m.entries)))
+				if m.first() > 0 && len(m.ghost) == 0 {
+					// below everything the log holds (a follower whose log starts above the offset its new
+					// leader cuts it to): the log becomes empty
+					x = m.first() - 1 - int64(g.Intn(int(min(m.first(), 3))))
+					r.Count("truncate_below_first", 1)
+				}
 			default:
 				x = m.first() + int64(g.Intn(len(m.entries)))
 			}
 			prog = append(prog, walProgOp{Kind: "truncate", A: x})
+			r.lastOp = fmt.Sprintf("%+v with log [%d..%d]", prog[len(prog)-1], m.first(), m.lastAppended())
 			got, err := w.TruncateLog(x)
 			if err != nil {
 				r.Fail("truncate-error", "TruncateLog(%d) with log [%d..%d] failed: %v", x, m.first(), m.lastAppended(), err)
@@ -364,6 +378,9 @@ func runC09(r *Run) {
 			crossed := keep < len(m.entries)
 			m.entries = m.entries[:keep]
 			m.synced = keep
+			if keep == 0 {
+				m.entries, m.ghost = nil, nil
+			}
 			if got != m.lastSynced() {
 				r.Fail("truncate-result", "TruncateLog(%d) returned %d, model last=%d", x, got, m.lastSynced())
 			}
@@ -373,6 +390,7 @@ func runC09(r *Run) {
 			r.Count("op_truncate", 1)
 		case kind < 73: // Clear
 			prog = append(prog, walProgOp{Kind: "clear"})
+			r.lastOp = fmt.Sprintf("%+v with log [%d..%d]", prog[len(prog)-1], m.first(), m.lastAppended())
 			if err := w.Clear(); err != nil {
 				r.Fail("clear-error", "Clear failed: %v", err)
 				break
@@ -381,6 +399,7 @@ func runC09(r *Run) {
 			r.Count("op_clear", 1)
 		case kind < 82: // Close + reopen
 			prog = append(prog, walProgOp{Kind: "reopen"})
+			r.lastOp = fmt.Sprintf("%+v with log [%d..%d]", prog[len(prog)-1], m.first(), m.lastAppended())
 			if err := w.Close(); err != nil {
 				r.Fail("close-error", "Close failed: %v", err)
 				break
@@ -412,6 +431,7 @@ func runC09(r *Run) {
 			cp.v.Store(co)
 			adv := time.Duration(g.Range(1, 200)) * time.Minute
 			prog = append(prog, walProgOp{Kind: "time+trim", A: co, N: int(adv / time.Minute)})
+			r.lastOp = fmt.Sprintf("%+v with log [%d..%d]", prog[len(prog)-1], m.first(), m.lastAppended())
 			time.Sleep(adv)
 			synctestWait()
 			cutoff := uint64(time.Now().Add(-retention).UnixMilli())
@@ -454,9 +474,11 @@ func runC09(r *Run) {
 			if len(m.entries) > 0 && m.synced > 0 && g.Chance(70) {
 				after := m.first() - 1 + int64(g.Intn(m.synced+1))
 				prog = append(prog, walProgOp{Kind: "read-fwd", A: after})
+				r.lastOp = fmt.Sprintf("%+v with log [%d..%d]", prog[len(prog)-1], m.first(), m.lastAppended())
 				readForward(after, "read")
 			} else {
 				prog = append(prog, walProgOp{Kind: "read-bwd"})
+				r.lastOp = fmt.Sprintf("%+v with log [%d..%d]", prog[len(prog)-1], m.first(), m.lastAppended())
 				readBackward("read")
 			}
 			r.Count("op_read", 1)
